@@ -70,6 +70,63 @@ def tb(x):
     return z3.BoolVal(x) if isinstance(x, bool) else (x.t if isinstance(x, SymBool) else x)
 
 
+class Num:
+    """a rendered non-negative integer: decimal digits of `term`, zero-padded to at least `width`"""
+
+    def __init__(self, term, width):
+        self.term, self.width = term, width
+
+
+def canon(pcs, run):
+    """pieces (literals / NumTok) -> canonical list of literals and Num groups.
+       {x} {x:d} -> Num(x,1);  {x:0N} -> Num(x,N);  {v:.3f} -> Num(R div 1000,1) '.' Num(R mod 1000,3) with R an integer nearest
+       to 1000*v (either neighbour at an exact tie).  Anything else is not modelled (NotImplementedError)."""
+    out = []
+    for p in pcs:
+        if isinstance(p, str):
+            if out and isinstance(out[-1], str):
+                out[-1] += p
+            else:
+                out.append(p)
+            continue
+        spec, v = p.spec, p.num
+        if spec in ("", "d") and isinstance(v, (SymInt, int)):
+            out.append(Num(_int_term(v), 1))
+        elif len(spec) == 2 and spec[0] == "0" and spec[1].isdigit() and isinstance(v, (SymInt, int)):
+            out.append(Num(_int_term(v), int(spec[1])))
+        elif spec == ".3f":
+            q = SymQ.of(v)
+            memo = run.notes.setdefault("_milli", {})
+            key = (str(z3.simplify(q.num)), q.den)       # the same value is rendered the same way
+            if key in memo:
+                R = memo[key]
+            else:
+                R = memo[key] = run.fresh_int("milli")
+                run.assume(z3.And(2 * (R * q.den - 1000 * q.num) <= q.den, 2 * (1000 * q.num - R * q.den) <= q.den))
+            out.append(Num(R / 1000, 1))
+            out.append(".")
+            out.append(Num(R % 1000, 3))
+        else:
+            raise NotImplementedError("format spec %r of %r" % (spec, type(v).__name__))
+    return out
+
+
+def canon_equal(a, b):
+    """z3 Bool: two canonical texts render identically (non-negative numbers)"""
+    if len(a) != len(b):
+        return z3.BoolVal(False)
+    parts = []
+    for x, y in zip(a, b):
+        if isinstance(x, str) or isinstance(y, str):
+            if x != y:
+                return z3.BoolVal(False)
+            continue
+        w = max(x.width, y.width)
+        same_w = z3.BoolVal(x.width == y.width) if x.width == y.width else (x.term >= 10 ** (w - 1))
+        parts.append(z3.And(x.term == y.term, same_w, x.term >= 0))
+    return z3.And(parts) if parts else z3.BoolVal(True)
+
+
 def text_pieces(s):
     """formatted result (real str with tokens, or SymStr) -> list of literal strs and (term-holder, spec)"""
     if isinstance(s, str):
@@ -81,7 +138,7 @@ class Check(CheckBase):
     pid = "C20"
     title = "text helpers"
     bounds = {"quick": {"xml_escape": "strings of length 0..4, each character symbolic over %r ('x' stands for any other XML-legal character)" % XML_ALPHA,
-                        "format_hms": "0 <= duration <= 10^7 s: integer milliseconds (symbolic), seconds = k/1000 (k symbolic), and integer seconds"},
+                        "format_hms": "0 <= duration <= 10^7 s: integer milliseconds, milliseconds with two decimals (j/100), seconds = k/1000, and integer seconds (all symbolic)"},
               "thorough": {"xml_escape": "length 0..6, same alphabet", "format_hms": "as quick"}}
     outside = ["characters XML forbids; the XML parser itself (the reference decoder is validated against lxml in element content and both attribute quotings)",
                "C-level rendering of the format specs .3f / 02 / d (tokens carry term + spec)", "float durations that are not multiples of 1 ms; binary64 rounding of duration/1000.0"]
@@ -92,7 +149,7 @@ class Check(CheckBase):
 
     def cases(self, tier):
         cs = [{"label": "xml/L%d" % n, "kind": "xml", "n": n, "split_depth": 8 if n >= 4 else None} for n in range(0, 5 if tier == "quick" else 7)]
-        for m in ("ms", "s-milli", "s-int", "ms-vs-s"):
+        for m in ("ms", "s-milli", "s-int", "ms-vs-s", "ms-frac", "ms-frac-vs-s"):
             cs.append({"label": "hms/" + m, "kind": "hms", "mode": m})
         return cs
 
@@ -128,27 +185,27 @@ class Check(CheckBase):
             run.prove("xml_escape:parser-reads-back-the-original", tb(back.eq_term(s)), info={"escaped": repr(out)})
             return
         mode = case["mode"]
-        if mode == "ms-vs-s":
-            k = run.int("ms", 0, DMAX * 1000)
-            a = tu.format_hms(k, True)
-            b = tu.format_hms(SymQ(k.t, 1000, "f", bound=DMAX), False)
+        if mode in ("ms-vs-s", "ms-frac-vs-s"):
+            if mode == "ms-vs-s":
+                k = run.int("ms", 0, DMAX * 1000)
+                a = tu.format_hms(k, True)
+                b = tu.format_hms(SymQ(k.t, 1000, "f", bound=DMAX), False)
+            else:
+                k = run.int("ms_x100", 0, DMAX * 100000)     # a float number of milliseconds with two decimals
+                a = tu.format_hms(SymQ(k.t, 100, "f", bound=DMAX * 1000), True)
+                b = tu.format_hms(SymQ(k.t, 100000, "f", bound=DMAX), False)
             run.reach("hms:ms-vs-s")
-            pa, pb = text_pieces(a), text_pieces(b)
-            ok = len(pa) == len(pb)
-            eqs = []
-            if ok:
-                for x, y in zip(pa, pb):
-                    if isinstance(x, str) or isinstance(y, str):
-                        ok = ok and x == y
-                    else:
-                        ok = ok and x.spec == y.spec
-                        eqs.append(_eq(x.num, y.num))
-            run.prove("format_hms:milliseconds-same-text-as-seconds", z3.And(eqs) if ok and eqs else z3.BoolVal(ok), info={"ms": a, "s": b})
+            ca, cb = canon(text_pieces(a), run), canon(text_pieces(b), run)
+            run.prove("format_hms:milliseconds-same-text-as-seconds", canon_equal(ca, cb), info={"ms": a, "s": b})
             return
         if mode == "ms":
             k = run.int("ms", 0, DMAX * 1000)
             d_num, d_den = k.t, 1000
             text = tu.format_hms(k, True)
+        elif mode == "ms-frac":
+            k = run.int("ms_x100", 0, DMAX * 100000)
+            d_num, d_den = k.t, 100000
+            text = tu.format_hms(SymQ(k.t, 100, "f", bound=DMAX * 1000), True)
         elif mode == "s-milli":
             k = run.int("ms", 0, DMAX * 1000)
             d_num, d_den = k.t, 1000
@@ -157,37 +214,43 @@ class Check(CheckBase):
             k = run.int("s", 0, DMAX)
             d_num, d_den = k.t, 1
             text = tu.format_hms(k)
-        pcs = text_pieces(text)
         tag = "format_hms/" + mode
+        ct = canon(text_pieces(text), run)
+        shape = "".join(p if isinstance(p, str) else "{%d}" % p.width for p in ct)
+        nums = [p for p in ct if isinstance(p, Num)]
         under10 = d_num < 10 * d_den
-        toks = [p for p in pcs if isinstance(p, NumTok)]
-        lits = [p for p in pcs if isinstance(p, str)]
-        shape = "".join(p if isinstance(p, str) else "{%s}" % p.spec for p in pcs)
         if run.branch(under10):
             run.reach("hms:<10")
-            ok = shape == "{.3f} Seconds"
-            run.prove(tag + ":under-10s-printed-to-the-millisecond", _eq_q(toks[0].num, d_num, d_den) if ok else z3.BoolVal(False), info={"text": shape})
+            # printed to the millisecond: the digits encode an integer R nearest to 1000*d
+            R = run.fresh_int("R")
+            run.assume(z3.And(2 * (R * d_den - 1000 * d_num) <= d_den, 2 * (1000 * d_num - R * d_den) <= d_den))
+            want = [Num(R / 1000, 1), ".", Num(R % 1000, 3), " Seconds"]
+            ok = shape == "{1}.{3} Seconds"
+            # at an exact tie either neighbour is accepted: compare through the defining property instead of equality with R
+            if ok:
+                tot = nums[0].term * 1000 + nums[1].term
+                run.prove(tag + ":under-10s-printed-to-the-millisecond",
+                          z3.And(nums[1].term >= 0, nums[1].term <= 999, nums[0].term >= 0,
+                                 2 * (tot * d_den - 1000 * d_num) <= d_den, 2 * (1000 * d_num - tot * d_den) <= d_den), info={"text": shape})
+            else:
+                run.prove(tag + ":under-10s-printed-to-the-millisecond", z3.BoolVal(False), info={"text": shape})
             return
         r = run.fresh_int("r")
-        # r = duration rounded to the nearest second (either neighbour at a tie)
         run.assume(z3.And(2 * (r * d_den - d_num) <= d_den, 2 * (d_num - r * d_den) <= d_den))
-        vals = [_int_term(t.num) for t in toks]
-        if any(v is None for v in vals):
-            run.prove(tag + ":fields-are-integers", z3.BoolVal(False), info={"text": shape})
-            return
-        if shape == "{02} Seconds":
+        vals = [n_.term for n_ in nums]
+        if shape == "{2} Seconds":
             run.reach("hms:seconds")
-            run.prove(tag + ":seconds-form", z3.And(r < 60, _nearest(vals[0], d_num, d_den), vals[0] < 60), info={"text": shape})
-        elif shape == "{}:{02} (Minutes, seconds)":
+            run.prove(tag + ":seconds-form", z3.And(r < 60, _nearest(vals[0], d_num, d_den), vals[0] < 60, vals[0] >= 0), info={"text": shape})
+        elif shape == "{1}:{2} (Minutes, seconds)":
             run.reach("hms:minutes")
-            m, s = vals
-            tot = m * 60 + s
-            run.prove(tag + ":minutes-form", z3.And(_nearest(tot, d_num, d_den), tot >= 60, tot < 3600, s >= 0, s <= 59, m >= 0), info={"text": shape})
-        elif shape == "{}:{02}:{02} (Hours, minutes, seconds)":
+            m, s_ = vals
+            tot = m * 60 + s_
+            run.prove(tag + ":minutes-form", z3.And(_nearest(tot, d_num, d_den), tot >= 60, tot < 3600, s_ >= 0, s_ <= 59, m >= 0), info={"text": shape})
+        elif shape == "{1}:{2}:{2} (Hours, minutes, seconds)":
             run.reach("hms:hours")
-            h, m, s = vals
-            tot = h * 3600 + m * 60 + s
-            run.prove(tag + ":hours-form", z3.And(_nearest(tot, d_num, d_den), tot >= 3600, s >= 0, s <= 59, m >= 0, m <= 59, h >= 0), info={"text": shape})
+            h, m, s_ = vals
+            tot = h * 3600 + m * 60 + s_
+            run.prove(tag + ":hours-form", z3.And(_nearest(tot, d_num, d_den), tot >= 3600, s_ >= 0, s_ <= 59, m >= 0, m <= 59, h >= 0), info={"text": shape})
         else:
             run.prove(tag + ":known-text-form", z3.BoolVal(False), info={"text": shape})
 
@@ -237,6 +300,16 @@ class Check(CheckBase):
                 else:
                     outs.append("%d:%02d:%02d (Hours, minutes, seconds)" % (r // 3600, (r % 3600) // 60, r % 60))
             return outs
+        if mode in ("ms-frac", "ms-frac-vs-s"):
+            j = int(i["ms_x100"])
+            msf = j / 100.0
+            a, b = tu.format_hms(msf, True), tu.format_hms(msf / 1000.0)
+            if mode == "ms-frac-vs-s":
+                return None if a == b else {"ms": msf, "format_hms(ms, True)": a, "format_hms(ms/1000.0)": b}
+            d = Fraction(j, 100000)
+            if d < 10:
+                return None if a == "%.3f Seconds" % (msf / 1000.0) else {"call": "format_hms(%r, True)" % msf, "got": a, "expected": "%.3f Seconds" % (msf / 1000.0)}
+            return None if a in expected(int(j // 100)) + expected(int(j // 100) + 1) else {"call": "format_hms(%r, True)" % msf, "got": a}
         if mode == "s-int":
             s = int(i["s"])
             got = tu.format_hms(s)
